@@ -559,9 +559,10 @@ func (p *c09) execBAMWriter(x *Exec, c *c09Case, vd *Verdict) (*Verdict, int, in
 		panic("c09: building BAM inputs: " + buildErr.Error())
 	}
 	last := calls[len(calls)-1]
-	if last.op == "close" && len(res.LiveLib) > 0 {
+	if (last.op == "close" || last.op == "new" && last.err != nil) && len(res.LiveLib) > 0 {
+		// a failed NewWriter hands the caller nothing to close
 		vd.V = &Violation{Kind: "leak", Class: fmt.Sprintf("leak:bamwriter:%v", describeSites(res.LiveLib)),
-			Msg: fmt.Sprintf("after bam.Writer.Close returned %d library goroutine(s) remain: %v", len(res.LiveLib), describe(res.LiveLib))}
+			Msg: fmt.Sprintf("after bam.Writer.Close (or a failed bam.NewWriter) returned %d library goroutine(s) remain: %v", len(res.LiveLib), describe(res.LiveLib))}
 		return vd, nW, 0, 0
 	}
 	seenErr := -1
